@@ -508,6 +508,11 @@ where
 		updater::retrieve_outputs(&mut **w, keychain_mask, true, None, None)?
 	};
 
+	// commitments found on chain: an output can be on chain and still Unconfirmed here, when it
+	// belongs to an account that has not been refreshed (the refresh before a scan covers the
+	// active account only)
+	let chain_commits: Vec<_> = chain_outs.iter().map(|o| o.commit).collect();
+
 	let mut missing_outs = vec![];
 	let mut accidental_spend_outs = vec![];
 	let mut locked_outs = vec![];
@@ -588,7 +593,9 @@ where
 
 		let unconfirmed_outs: Vec<&OutputCommitMapping> = wallet_outputs
 			.iter()
-			.filter(|o| o.output.status == OutputStatus::Unconfirmed)
+			.filter(|o| {
+				o.output.status == OutputStatus::Unconfirmed && !chain_commits.contains(&o.commit)
+			})
 			.collect();
 		// Delete unconfirmed outputs
 		for m in unconfirmed_outs.into_iter() {
